@@ -1,43 +1,27 @@
 // C43 — language-server helpers never crash and report positions inside the document (appended to varpulis-lsp/src/diagnostics.rs)
-// shared by the three C43 modules: bounded documents over a 6-character alphabet incl. newline and a 2-byte character
-pub const ALPHA: [char; 6] = ['a', '_', ' ', '\n', 'é', '1'];
-pub fn mkdoc(n: u8, c: [u8; 3]) -> String {
-    let mut s = String::new();
-    let mut i = 0;
-    while i < 3 { if (i as u8) < n { s.push(ALPHA[(c[i] % 6) as usize]); } i += 1; }
-    s
-}
-pub fn newlines(s: &str) -> usize { let mut k = 0; for ch in s.chars() { if ch == '\n' { k += 1; } } k }
-pub fn nchars(s: &str) -> usize { let mut k = 0; for _ in s.chars() { k += 1; } k }
+// every valid UTF-8 document of at most `n` bytes (n <= 3), from symbolic bytes
+pub fn doc<'a>(n: u8, b: &'a [u8; 3]) -> Option<&'a str> { if n > 3 { return None; } std::str::from_utf8(&b[..n as usize]).ok() }
+pub fn newlines(s: &str) -> usize { let mut k = 0; for c in s.bytes() { if c == b'\n' { k += 1; } } k }
 
+vpv_cell!(#[kani::unwind(8)] c43_position_to_line_col, "C43/diagnostics::position_to_line_col/no-panic, line <= #newlines, col <= #bytes (all UTF-8 docs <= 2 bytes, every offset)",
+  (n: u8, b: [u8; 3], pos: u8), {
+    if n > 2 || pos > 4 { return true; }
+    let Some(d) = doc(n, &b) else { return true; };
+    let (line, col) = position_to_line_col(d, pos as usize);
+    line <= newlines(d) && col <= d.len() });
 
-vpv_cell!(#[kani::unwind(8)] c43_position_to_line_col, "C43/diagnostics::position_to_line_col/no-panic, line <= #newlines, col <= #chars (docs <= 2 chars)",
-  (n: u8, c: [u8; 3], pos: u8), {
-    if n > 2 { return true; }
-    let doc = mkdoc(n, c);
-    if pos as usize > doc.len() + 1 { std::mem::forget(doc); return true; }
-    let (line, col) = position_to_line_col(&doc, pos as usize);
-    let ok = line <= newlines(&doc) && col <= nchars(&doc);
-    std::mem::forget(doc);
-    ok });
-
-vpv_cell!(#[kani::unwind(8)] c43_position_to_line_col_len3__thorough, "C43/diagnostics::position_to_line_col/no-panic, line <= #newlines, col <= #chars (docs <= 3 chars)",
-  (n: u8, c: [u8; 3], pos: u8), {
-    if n > 3 { return true; }
-    let doc = mkdoc(n, c);
-    if pos as usize > doc.len() + 1 { std::mem::forget(doc); return true; }
-    let (line, col) = position_to_line_col(&doc, pos as usize);
-    let ok = line <= newlines(&doc) && col <= nchars(&doc);
-    std::mem::forget(doc);
-    ok });
+vpv_cell!(#[kani::unwind(8)] c43_position_to_line_col_len3__thorough, "C43/diagnostics::position_to_line_col/no-panic, line <= #newlines, col <= #bytes (all UTF-8 docs <= 3 bytes)",
+  (n: u8, b: [u8; 3], pos: u8), {
+    if n > 3 || pos > 5 { return true; }
+    let Some(d) = doc(n, &b) else { return true; };
+    let (line, col) = position_to_line_col(d, pos as usize);
+    line <= newlines(d) && col <= d.len() });
 
 // column as reported by the parser: a CHARACTER column (0-based here), anywhere from 0 to just past the line
-vpv_cell!(#[kani::unwind(24)] c43_error_end_column, "C43/diagnostics::get_error_end_column/no-panic and end > start (docs <= 2 chars incl. a 2-byte char)",
-  (n: u8, c: [u8; 3], line: u8, col: u8), {
-    if n > 2 || line > 3 || col > 4 { return true; }
-    let doc = mkdoc(n, c);
-    let end = get_error_end_column(&doc, line as usize, col as usize);
-    std::mem::forget(doc);
-    end > col as usize });
+vpv_cell!(#[kani::unwind(24)] c43_error_end_column, "C43/diagnostics::get_error_end_column/no-panic and end > start (all UTF-8 docs <= 2 bytes incl. one 2-byte char)",
+  (n: u8, b: [u8; 3], line: u8, col: u8), {
+    if n > 2 || line > 2 || col > 3 { return true; }
+    let Some(d) = doc(n, &b) else { return true; };
+    get_error_end_column(d, line as usize, col as usize) > col as usize });
 
 vpv_replay_table!(c43_position_to_line_col, c43_position_to_line_col_len3__thorough, c43_error_end_column);
